@@ -47,8 +47,8 @@ TOLS = [1e-5, 1e-6, 1e-8, 1e-10, 1e-12, 1e-14]
 EPS = 2.0 ** -52
 
 # ---- oracle constants.  Calibration: max observed ratio (C06_STATS=1) over VERIF_SEED=1..5 quick and one thorough run:
-#      score 3.3, gauss 0.01, dev 0.94, cov 0.34, se 0.14, pred 1.25 (eps units), perm 0.26, bic 0.8 (eps units)
-C_SCORE = 400.0      # Newton decrement^2 (g^T H^-1 g, mpmath) at the returned beta <= C_SCORE * tol * penalised deviance + floor
+#      score 4.3, gauss 0.01, dev 0.94, cov 0.40, se 0.20, pred 1.3 (eps units), perm 1.15, bic 0.9 (eps units), score(x,y) 0.09
+C_SCORE = 500.0      # Newton decrement^2 (g^T H^-1 g, mpmath) at the returned beta <= C_SCORE * tol * penalised deviance + floor
 C_ROUND = 1.0e4      # multiplier of the double-precision rounding floors (n * eps * sum |terms|)
 C_DEV = 100.0        # |reported deviance - deviance(mu(beta))| <= C_DEV * (|grad dev|_{H^-1} * last-step bound + tol * pd) + floor
 C_COV = 1000.0       # covariance / std errors vs mpmath at the returned beta: C_COV * max_i |x_i|_{H^-1} * last-step bound + floor
@@ -216,9 +216,8 @@ def problem(rng, fam, n, p, has_w, has_off):
     x, kinds = design_matrix(rng, n, p)
     scale = 1.0 if rng.chance(0.5) else 1.0 / math.sqrt(p)
     beta = [rng.uniform(-1.5, 1.5) * scale for _ in range(p)]
-    if fam in ("poisson", "quasipoisson", "gamma", "exponential"):
-        # the start value of the source is eta = mean(y): keep the mean moderate so that exp(mean(y)) stays finite
-        beta[0] = rng.uniform(-1.0, 1.2)
+    if fam in ("poisson", "quasipoisson", "gamma", "exponential") and rng.chance(0.5):
+        beta[0] = rng.uniform(-1.0, 1.2)     # half of the log-link problems with moderate means, half with the full |beta| <= 1.5
     off = [0.3 * rng.normal() for _ in range(n)] if has_off else None
     eta = [sum(x[i * p + j] * beta[j] for j in range(p)) + (off[i] if off else 0.0) for i in range(n)]
     y = simulate(rng, fam, eta)
@@ -282,10 +281,16 @@ def corpus():
             L.append(mkline("gaussian", 12, 2, xc, [0.3 * v + 0.1 for v in cnt], [c] * 12, None, a, 1e-10, 200))
     L.append(mkline("bernoulli", 20, 2, xd, passed, [2.0] * 20, None, 0.1, 1e-10, 200))
     L.append(mkline("exponential", 12, 2, xc, [v + 0.5 for v in cnt], [7.0] * 12, None, 0.0, 1e-10, 200))
-    # finding glm:log-link-start-overflow: intercept-only Poisson, y in {399, 401}: Ok with coef = 400 (MLE: ln 400 = 5.99);
-    # mean(y) = 300 converges (needs ~300 passes), mean(y) = 712 overflows to NaN and is reported as Err
-    for m in (300.0, 400.0, 712.0):
-        L.append(mkline("poisson", 20, 1, [1.0] * 20, [m - 1, m + 1] * 10, None, None, 0.0, 1e-8, 1000))
+    # F51 (repaired): the log-link families used to start at eta = mean(y) on the LINK scale; for 354.9 < mean(y) <= 709.78
+    # dmu*dmu overflowed, the step was 0 and `fit` reported success at the start value (witness: y in {399, 401} -> coef 400
+    # instead of ln 400 = 5.99).  They start at ln(mean(y)) now: a stationary point or Err is demanded by the oracle.
+    for m in (300.0, 400.0, 712.0, 1.0e6):
+        for mi in (1000, 3):
+            L.append(mkline("poisson", 20, 1, [1.0] * 20, [m - 1, m + 1] * 10, None, None, 0.0, 1e-8, mi))
+    L.append(mkline("gamma", 20, 1, [1.0] * 20, [399.5, 400.5] * 10, None, None, 0.0, 1e-8, 100))
+    # all-zero counts: ln(mean(y)) = -inf, the fit must end in Err (never Ok)
+    L.append(mkline("poisson", 20, 1, [1.0] * 20, [0.0] * 20, None, None, 0.0, 1e-8, 50))
+    L.append(mkline("quasipoisson", 20, 2, [v for t in range(20) for v in (1.0, t / 10.0 - 1.0)], [0.0] * 20, None, None, 0.1, 1e-8, 50))
     # panic classes
     L.append(mkline("gaussian", 6, 2, [2.0] + x[1:], y, None, None, 0.0, 1e-8, 50))          # not a design matrix
     L.append(mkline("gaussian", 6, 2, x, y, [1.0, 2.0], None, 0.0, 1e-8, 50))                 # wrong number of weights
@@ -453,18 +458,25 @@ def generic_strata(rng, tier, lines, cover):
                 if sum(y) == 0:
                     y[0] = 1.0
             add("exact-zero-responses", mkline(fam, n, pp, x, y, None, None, rng.choice(ALPHAS), 1e-8, 200))
-        # (3) threshold band of exp overflow: the start value is eta = mean(y) on the LINK scale; exp(709.78) is the largest
-        # finite double.  An error must be reported, never a success with non-finite values.
-        for k, m in enumerate([600.0, 700.0, 705.0, 709.0, 709.78, 710.0, 712.0, 800.0, 1575.0, 1.0e4]):
+        # (3) large and tiny means for the log-link families (F51: the start value is ln(mean(y)); before the repair
+        # 354.9 < mean(y) <= 709.78 gave a false success and mean(y) > 709.78 NaN): counts in the hundreds .. 1e6 must converge
+        # to a stationary point (or Err on a short budget); all-zero counts (ln 0 = -inf) must end in Err
+        for k, m in enumerate([300.0, 354.0, 356.0, 600.0, 709.0, 709.78, 712.0, 1575.0, 1.0e4, 1.0e6, 0.0, 0.05]):
             fam = ["poisson", "quasipoisson", "gamma", "exponential"][(k + rep) % 4]
             pp = rng.randint(1, 2)
             n = rng.randint(20, 30)
             x, _ = design_matrix(rng, n, pp)
-            y = [float(max(1, round(m * (1 + 0.05 * rng.normal())))) for _ in range(n)]
-            sh = m - sum8(y) / n
-            y = [v + float(round(sh)) for v in y]
-            off = [math.log(1000.0) + 0.1 * rng.normal() for _ in range(n)] if rng.chance(0.5) else None
-            add("exp-overflow", mkline(fam, n, pp, x, y, None, off, rng.choice([0.0, 0.1]), 1e-8, rng.choice([5, 50, 200, 1200])))
+            if m == 0.0:
+                fam = ["poisson", "quasipoisson"][k % 2]
+                y = [0.0] * n
+            elif m < 1:
+                fam = ["poisson", "quasipoisson"][k % 2]
+                y = [0.0] * n
+                y[rng.randint(0, n - 1)] = 1.0
+            else:
+                y = [float(max(1, round(m * (1 + 0.05 * rng.normal())))) for _ in range(n)]
+            off = [math.log(1000.0) + 0.1 * rng.normal() for _ in range(n)] if (m >= 1000 and rng.chance(0.5)) else None
+            add("large-or-zero-mean", mkline(fam, n, pp, x, y, None, off, rng.choice([0.0, 0.1]), 1e-8, rng.choice([5, 50, 200])))
         # (3) iteration budget: max_iter = 0..9 on the same problem brackets the pass at which convergence is declared
         for fam in FAMILIES:
             n, pp, x, y, w, off = small(fam, nhi=30)
@@ -700,17 +712,6 @@ def check_fit(mp, i, line, rep, fails):
     lam2 = qHi(A["score"])
     bound = C_SCORE * T + C_ROUND ** 2 * F
     stat("score", float(lam2 / (T + F + tiny)), key0)
-    if lam2 > bound and fam not in ("gaussian", "bernoulli") and \
-            max((off[ii] if off is not None else 0.0) for ii in range(n)) + sum8(y) / n > 354.89:
-        # genuine finding (stable key): the log-link families start from eta = mean(y) on the LINK scale; for
-        # 354.9 < mean(y) (+ offset) <= 709.78 mu = exp(eta) is finite but dmu*dmu overflows, the information is +inf, the
-        # scoring step is 0, the deviance does not change and `fit` declares convergence at the start value.
-        fails.append(Failure(i, "glm:log-link-start-overflow",
-                             "fit reported success at its start value: intercept %r (= mean(y)), not a stationary point "
-                             "(Newton decrement^2 %.3e > %.3e, score %s); the working weights w*dmu*dmu/var overflow for "
-                             "mean(y) > 354.9 on the link scale [%s]" % (beta[0], float(lam2), float(bound),
-                                                                        [float(v) for v in A["score"]], key0)))
-        return r
     if lam2 > bound:
         fails.append(Failure(i, "not-stationary:" + key0,
                              "fit reported success but the returned coefficients are not a stationary point of the penalised "
